@@ -519,6 +519,8 @@ def describeVersion : List Char := {lean_str(mod.DESCRIBE_VERSION)}
 def describeMethodName : List Char := {lean_str(mod.DESCRIBE_METHOD_NAME)}
 /-- `vgi_rpc.metadata.REQUEST_VERSION` = {md.REQUEST_VERSION!r} -/
 def requestVersion : List UInt8 := {_bytes(md.REQUEST_VERSION)}
+/-- `REQUEST_VERSION.decode()` -/
+def requestVersionText : List Char := {lean_str(md.REQUEST_VERSION.decode())}
 /-- `MethodType.UNARY.value` / `MethodType.STREAM.value` -/
 def methodTypeUnary : List Char := {lean_str(mt["UNARY"])}
 def methodTypeStream : List Char := {lean_str(mt["STREAM"])}
